@@ -153,6 +153,17 @@ func c20Single(c *core.Ctx, kind, arg string, distinct bool) {
 	}
 }
 
+// c20ArrayIP: element i of an IP array of kind "4" (IPv4), "6" (short IPv6 text) or "6long" (39 character IPv6 text).
+func c20ArrayIP(elem string, i int) net.IP {
+	switch elem {
+	case "4":
+		return net.IPv4(10, 0, byte(i>>8), byte(i))
+	case "6long":
+		return net.ParseIP(fmt.Sprintf("2001:4479:1e00:8202:1042:15ff:fee6:%x", 0x1000+i%0xe000))
+	}
+	return net.ParseIP(fmt.Sprintf("2001:db8::%x", i+1))
+}
+
 // c20Array checks the truncating appenders: kind in bytearray|stringarray|iparray; fill = index before the call.
 func c20Array(c *core.Ctx, kind string, fill int, n int, elem string) {
 	c.Count("evaluations", 1)
@@ -181,11 +192,7 @@ func c20Array(c *core.Ctx, kind string, fill int, n int, elem string) {
 		case "iparray":
 			v := make([]net.IP, n)
 			for i := range v {
-				if elem == "4" {
-					v[i] = net.IPv4(10, 0, byte(i>>8), byte(i))
-				} else {
-					v[i] = net.ParseIP(fmt.Sprintf("2001:db8::%x", i+1))
-				}
+				v[i] = c20ArrayIP(elem, i)
 			}
 			l.IPArray("a", v)
 		}
@@ -236,11 +243,7 @@ func c20Array(c *core.Ctx, kind string, fill int, n int, elem string) {
 			if i > 0 {
 				want.WriteString(", ")
 			}
-			if elem == "4" {
-				want.WriteString(net.IPv4(10, 0, byte(i>>8), byte(i)).String())
-			} else {
-				want.WriteString(net.ParseIP(fmt.Sprintf("2001:db8::%x", i+1)).String())
-			}
+			want.WriteString(c20ArrayIP(elem, i).String())
 		}
 	}
 	want.WriteString("]\n")
@@ -478,6 +481,11 @@ func c20Run(c *core.Ctx, args []string) {
 		for _, n := range []int{0, 1, 2, 3, rem / 16, 200} {
 			c20Array(c, "iparray", fill, n, "4")
 			c20Array(c, "iparray", fill, n, "6")
+		}
+		for _, n := range []int{1, 2, rem/41 - 1, rem / 41, rem/41 + 1, 100} {
+			if n > 0 {
+				c20Array(c, "iparray", fill, n, "6long")
+			}
 		}
 	}
 	c.Sample(map[string]any{"appender": "ipslice", "value": "2001:db8:0:0:1:1:1:1"}, 8)
